@@ -17,6 +17,7 @@ import (
 	"strconv"
 	"strings"
 	"sync"
+	"time"
 
 	"github.com/rs/zerolog"
 )
@@ -29,6 +30,8 @@ type component struct {
 	// setup/teardown are optional.
 	setup    func()
 	teardown func()
+	// timeout of one case (default 180 s)
+	timeout time.Duration
 }
 
 var components = map[string]*component{}
@@ -38,14 +41,36 @@ func register(name string, c *component) { components[name] = c }
 var outMu sync.Mutex
 var out = bufio.NewWriterSize(os.Stdout, 1<<16)
 
-func safeRun(c *component, cs string) (res string) {
-	defer func() {
-		if r := recover(); r != nil {
-			res = "panic"
-			fmt.Fprintf(os.Stderr, "panic on case %q: %v\n", cs, r)
-		}
+// safeRun runs one case with a recover (a panic is the output "panic") and a watchdog: a case that does
+// not finish in time is the output "hang"; a spinning goroutine cannot be stopped, so the process then
+// prints what it has and exits. The case being run is announced on stderr first, so that /verif/check can
+// name it if the whole process dies (a panic on a goroutine of the code under test).
+func safeRun(c *component, cs string) string {
+	fmt.Fprintf(os.Stderr, "#running\t%s\n", cs)
+	done := make(chan string, 1)
+	go func() {
+		defer func() {
+			if r := recover(); r != nil {
+				fmt.Fprintf(os.Stderr, "panic on case %q: %v\n", cs, r)
+				done <- "panic"
+			}
+		}()
+		done <- c.run(cs)
 	}()
-	return c.run(cs)
+	limit := c.timeout
+	if limit == 0 {
+		limit = 180 * time.Second
+	}
+	select {
+	case res := <-done:
+		return res
+	case <-time.After(limit):
+		outMu.Lock()
+		out.WriteString(cs + "\thang\n")
+		out.Flush()
+		os.Exit(3)
+		return "hang"
+	}
 }
 
 func main() {
